@@ -93,12 +93,22 @@ def trial_c08flaky(inputs, output, size_dict, pseed=0):
     return trial_c08det(inputs, output, size_dict, pseed)
 
 
+def trial_c08opt(inputs, output, size_dict, pseed=0):
+    """deterministic and near-optimal: the plain greedy tree (no noise), whatever pseed is --
+    a short hot anneal started from it usually ends worse than it began"""
+    from cotengra.core import ContractionTree
+    from cotengra.pathfinders.path_basic import optimize_greedy
+    path = optimize_greedy(inputs, output, size_dict)
+    return ContractionTree.from_path(inputs, output, size_dict, path=path)
+
+
 def register_methods():
     from cotengra.hyperoptimizers import hyper
     if "c08det" not in hyper._PATH_FNS:
         sp = {"pseed": {"type": "INT", "min": 0, "max": 10 ** 6}}
         hyper.register_hyper_function("c08det", trial_c08det, sp)
         hyper.register_hyper_function("c08flaky", trial_c08flaky, sp)
+        hyper.register_hyper_function("c08opt", trial_c08opt, sp)
 
 
 def custom_ensure(trial):
@@ -581,6 +591,34 @@ def run_case(spec):
         except Exception as e:
             P.append("could not rebuild the returned tree: %r" % (e,))
     obs["returned"] = ret is not None
+    # every recorded trial row: the figures and the score must be those of the tree that trial
+    # KEPT in its dict (rebuilt from scratch + independent evaluation), not of some other tree
+    # (a discarded copy, the tree before the last stage ...): the ranking rests on these rows
+    nrow = 0
+    for t in log:
+        tobj = t.get("tree_obj")
+        if tobj is None or t.get("fields") is None or spec.get("compressed"):
+            continue
+        f = t["fields"]
+        if f["flops"] is None and f["write"] is None and f["size"] is None:
+            continue        # a bare callable objective that records nothing (outside the property)
+        try:
+            fresh, spec_st, _ = rebuilt_stats(tobj, inputs, output, size_dict)
+        except Exception as e:
+            P.append("could not rebuild the tree kept by trial %d: %r" % (t["k"], e))
+            continue
+        nrow += 1
+        rec = {k: f[k] for k in ("flops", "write", "size")}
+        if rec != fresh or rec != spec_st:
+            P.append("trial %d records costs %r but the tree it kept has %r (independent evaluation %r)" % (
+                t["k"], rec, fresh, spec_st))
+            continue
+        val = objective_value(spec["minimize"], fresh["flops"], fresh["write"], fresh["size"])
+        if val is not None and f["score"] not in (None, "inf", "nan"):
+            got = struct.unpack(">d", struct.pack(">q", f["score"]))[0] if f["score"] >= 0 else None
+            if got is not None and not (abs(got - val ** 0.75) < 1e-4):
+                P.append("trial %d records score %r but the tree it kept scores %r" % (t["k"], got, val ** 0.75))
+    obs["rows_checked"] = nrow
     # deterministic methods: every recorded figure can be recomputed from the recorded setting alone
     if spec.get("check_det") and not kw and len(set(obs["lens"])) == 1:
         for j, (m, p) in enumerate(zip(opt.method_choices, opt.param_choices)):
@@ -1031,8 +1069,8 @@ def run(ctx):
             "size_dict": {c: 2 + (ord(c) % 3) for c in "abcdef"}}
     base = dict(net0, mode="serial", methods=["greedy"], max_repeats=4, optlib="random", seed=3,
                 on_trial_error="warn", nsearch=1, opts={})
-    add("probe:limit", dict(base, minimize="limit"))
-    add("probe:limit-64", dict(base, minimize="limit-64"))
+    add("reg:limit", dict(base, minimize="limit"))
+    add("reg:limit-64", dict(base, minimize="limit-64"))
     add("reg:combo-256+reconf", dict(base, minimize="combo-256", opts={"reconf_opts": {}}))
     add("reg:limit-8+slicing_reconf", dict(base, minimize="limit-8", opts={"slicing_reconf_opts": {"target_size": 8}}))
     add("probe:custom-bare", dict(base, minimize="custom-bare"))
@@ -1043,6 +1081,23 @@ def run(ctx):
 
     for i in range(ctx.n(170, 5000)):
         add("serial%d" % i, make_spec(rng, gen))
+    # annealing as the LAST stage, started from a near-optimal deterministic tree, short and hot:
+    # many anneals end worse than they began (what is recorded must be the tree that is kept)
+    for i in range(ctx.n(40, 300)):
+        while True:
+            inputs, output, size_dict = gen.rand_net(rng, nmin=6, nmax=10, max_ix=12, p_scalar=0.0, p_disconnected=0.0,
+                                                     p_size1=0.05, dmax=4, p_hyper=0.2, p_repeat=0.1)
+            if sum(len(t) >= 2 for t in inputs) >= 5:
+                break
+        sp = make_spec(rng, gen, methods=["c08opt"], minimize=rng.choice(["flops", "flops", "combo", "size", "write"]),
+                       opts={"simulated_annealing_opts": {"tstart": rng.choice([5, 10, 50]), "tfinal": rng.choice([2, 5]),
+                                                          "tsteps": rng.randint(1, 3), "numiter": rng.randint(3, 12)}},
+                       max_repeats=rng.randint(3, 8), on_trial_error="ignore", nsearch=1,
+                       mode="serial" if i % 4 else "scripted", ranks=[2, 0, 3, 1], slack=[0, 1], pre_dispatch=2)
+        for k in ("max_time", "clock", "faults", "mts"):
+            sp.pop(k, None)
+        sp.update(inputs=[list(t) for t in inputs], output=list(output), size_dict=size_dict)
+        add("anneal-last%d" % i, sp)
     # default hyper-parameter library (cmaes here): adaptive get_setting
     for i in range(ctx.n(6, 40)):
         add("default-optlib%d" % i, make_spec(rng, gen, optlib=None, methods=rng.choice([["greedy"], ["greedy", "kahypar"], ["c08det", "greedy"]]),
@@ -1110,6 +1165,7 @@ def run(ctx):
                      found_input=False)
 
     # ---------------------------------------------------------------- oracle + model cases
+    deferred = []
     pipe_cases, pipe_recs = [], []
     search_cases, search_recs = [], []
     argmin_cases, argmin_recs = [], []
@@ -1136,6 +1192,13 @@ def run(ctx):
             feats.add("second_search")
         if spec.get("faults"):
             feats.add("stage_faults")
+        if list(spec["opts"]) == ["simulated_annealing_opts"]:
+            for t in obs.get("trials", []):
+                st = t.get("stages") or []
+                if st and isinstance(st[-1].get("after"), list) and isinstance(t.get("base"), list):
+                    ctx.count("anneal_last_ended_worse" if st[-1]["after"][0] > t["base"][0] else
+                              ("anneal_last_ended_better" if st[-1]["after"][0] < t["base"][0] else "anneal_last_unchanged"))
+        ctx.count("trial_rows_checked_against_kept_tree", obs.get("rows_checked", 0))
         if obs.get("sliced"):
             feats.add("returned_tree_sliced")
         if spec["optlib"] is None:
@@ -1174,8 +1237,10 @@ def run(ctx):
             if got_stages != want_stages[:len(got_stages)] or (
                     t["exc"] is None and t["base"] not in ("bad", "err") and all(isinstance(s["after"], list) for s in t["stages"])
                     and got_stages != want_stages):
-                ctx.fail("post-processing stages ran as %r, setup() was given %r" % (got_stages, want_stages),
-                         {"spec": spec, "label": label, "trial": t}, found_input=False)
+                # model departures are reported after the oracle's verdicts (only the first few
+                # violations are printed, and a failing input must not be crowded out)
+                deferred.append(("post-processing stages ran as %r, setup() was given %r" % (got_stages, want_stages),
+                                 {"spec": spec, "label": label, "trial": t}))
                 continue
             pc = pipeline_case(spec, t, obs.get("limit_ensures", False))
             if pc is None:
@@ -1273,6 +1338,8 @@ def run(ctx):
                                  {"spec": spec, "label": label, "pool": pool})
                         break
 
+    for what, rec in deferred:
+        ctx.fail(what, rec, found_input=False)
     ctx.log("oracle done; %d pipeline cases, %d search replays, %d selection cases -> coqc" % (
         len(pipe_cases), len(search_cases), len(argmin_cases)))
     for name, cases, recs, what in (
